@@ -15,7 +15,7 @@ Driver for C18.  Protocol (one case):
   line <notjson|notreq> [lossy=1] raw=<hex>                          any other line (classified on the
                                                                      lossily decoded text, as the transport does)
   claimcheck <code hex>                                              direct PairingStore::claim(code, None)
-  impl ...                                                           (ignored here)
+  impl ... / obs ...                                                 (ignored here)
   end
 For every req/line the model prints `m <reply class> fx=<changed probes|->`, for claimcheck / revoke `m ok|fail`.
 Fields of `req` the model does not read (`cred=`, `valid=`, `lossy=`) feed the oracle in checks/c18.py.
@@ -85,11 +85,14 @@ def showReply : Reply → String
 structure St where
   ep : Option Endpoint := none
 
-def parseRequest? (ws : List String) : Option Request := do
+def parseRequest? (ws : List String) : Option (Request × Bool) := do
   let id ← (← field? ws "id").toNat?
   let ty ← hexString? (← field? ws "type")
   let auth ← optStr? (← field? ws "auth")
-  let eff ← parseBool? (← field? ws "eff")
+  -- eff: 0 = ineffective, 1 = effective, 2 = boundary values (effect not asserted: `fx=*` if dispatched)
+  let effN ← (← field? ws "eff").toNat?
+  if effN > 2 then none
+  let eff := effN == 1
   let nonceRaw ← field? ws "nonce"
   let nonce ← if nonceRaw = "-" then some "" else hexString? nonceRaw
   let pkind ← field? ws "params"
@@ -99,7 +102,7 @@ def parseRequest? (ws : List String) : Option Request := do
     else if pkind = "nonobj" then some Params.nonObject
     else if pkind = "obj" then some (Params.object entries)
     else none
-  some { id := id, type := ty, auth := auth, params := params, effective := eff, nonce := nonce }
+  some ({ id := id, type := ty, auth := auth, params := params, effective := eff, nonce := nonce }, effN == 2)
 
 def answer (ep : Endpoint) (l : Line) : Endpoint × String :=
   let (ep', o) := step ep l
@@ -112,6 +115,7 @@ def stepLine (st : St) (line : String) : St × Option String :=
   | ["end"] => (st, none)
   | "impl" :: _ => (st, none)
   | "tag" :: _ => (st, none)
+  | "obs" :: _ => (st, none)
   | "world" :: rest =>
     match (do
       let tok ← optStr? (← field? rest "token")
@@ -160,9 +164,10 @@ def stepLine (st : St) (line : String) : St × Option String :=
     | _, _ => (st, some "bad-op")
   | "req" :: rest =>
     match st.ep, parseRequest? rest with
-    | some ep, some r =>
-      let (ep', out) := answer ep (.request r)
-      ({ st with ep := some ep' }, some out)
+    | some ep, some (r, boundary) =>
+      let (ep', o) := step ep (.request r)
+      let fx := if boundary && o.reply.carriesData then "*" else showFx o.fx
+      ({ st with ep := some ep' }, some s!"m {showReply o.reply} fx={fx}")
     | _, _ => (st, some "bad-op")
   | "line" :: kind :: _ =>
     match st.ep with
@@ -194,7 +199,9 @@ def stepLine (st : St) (line : String) : St × Option String :=
 def printClasses : IO Unit := do
   for t in dispatched do
     let b (x : Bool) : String := if x then "1" else "0"
-    IO.println s!"class {showHex (t.toUTF8.toList.map (·.toNat))} mutating={b (mutating t)} debugclass={b (debugClass.contains t)} floor={(requiredRole t .missing).name}"
+    let eff := ((staticEffect true t).getD [] ++ (staticEffect false t).getD []).map probeName
+    let effs := if eff.isEmpty then "-" else joinWith "," eff
+    IO.println s!"class {showHex (t.toUTF8.toList.map (·.toNat))} mutating={b (mutating t)} debugclass={b (debugClass.contains t)} floor={(requiredRole t .missing).name} effects={effs}"
 
 def main (lines : Array String) (args : List String) : IO Unit := do
   if args = ["classes"] then
